@@ -258,12 +258,13 @@ def batch_run(cases):
 
 def shard(idx, n, tier):
     H()
+    par.server()
     res = core.Result()
     W = 8 if tier == "thorough" else 6
     mine = [c for k, c in enumerate(box_cases(W)) if k % n == idx]
     B = 400
     for i in range(0, len(mine), B):
-        r = par.in_child(batch_run, mine[i:i + B], timeout=600)
+        r = par.pristine(batch_run, mine[i:i + B], timeout=600)
         if par.is_exc(r):
             res.harness_error("batch crashed: %s %s" % (r[1], r[3][-800:]))
         else:
@@ -324,7 +325,7 @@ def shard(idx, n, tier):
 
     def flush():
         if batch:
-            r = par.in_child(batch_run, list(batch), timeout=600)
+            r = par.pristine(batch_run, list(batch), timeout=600)
             if par.is_exc(r):
                 res.harness_error("batch crashed: %s %s" % (r[1], r[3][-800:]))
             else:
